@@ -471,7 +471,7 @@ def run(rep, tier):
     specs.append(("find", (2, (0, 1), ("O3'", "P"), 1, "icode")))
     specs.append(("find", (3, (0, 1, 1), ("OP1", "P", "OP1"), 0, "icode")))
     specs.append(("find", (2, (0, 1), ("C5", "O2'"), 1)))
-    tri = [(("P", "OP1", "OP1"), (0, 0, 1)), (("C4'", "N1", "C5"), (0, 1, 1))]
+    tri = [(("P", "OP1", "OP1"), (0, 0, 1)), (("C4'", "N1", "C5"), (0, 1, 1)), (("H5'", "P", "OP1"), (0, 0, 1)), (("MG", "O2'", "N1"), (0, 1, 1))]
     if tier != "quick":
         tri += [(("P", "P", "P"), (0, 1, 2)), (("O2'", "H5'", "O2'"), (0, 1, 1)), (("N1", "MG", "C4'"), (0, 0, 1))]
         for a, b in itertools.combinations_with_replacement(["C4'", "N1", "O2'", "P"], 2):
